@@ -27,7 +27,7 @@ NULLQ = [
  ("n_setparam_h", "svt_av1_enc_set_parameter", "handle"), ("n_setparam_cfg", "svt_av1_enc_set_parameter", "config"),
  ("n_hdr_h", "svt_av1_enc_stream_header", "handle"), ("n_hdr_out", "svt_av1_enc_stream_header", "output pointer"),
  ("n_hdr_release", "svt_av1_enc_stream_header_release", "buffer"),
- ("n_send_h", "svt_av1_enc_send_picture", "handle"),
+ ("n_send_h", "svt_av1_enc_send_picture", "handle"), ("n_send_buf", "svt_av1_enc_send_picture", "p_buffer"),
  ("n_getpkt_h", "svt_av1_enc_get_packet", "handle"), ("n_getpkt_buf", "svt_av1_enc_get_packet", "p_buffer"),
  ("n_release_null", "svt_av1_enc_release_out_buffer", "p_buffer"), ("n_release_pnull", "svt_av1_enc_release_out_buffer", "*p_buffer"),
  ("n_recon_h", "svt_av1_get_recon", "handle"), ("n_recon_buf", "svt_av1_get_recon", "p_buffer"),
